@@ -154,6 +154,33 @@ def run_text(ns, res, text, configs, parts_by_len, rng, sample_every):
                               {'text': text, 'policy': policy, 'comment': comment, 'header': header, 'encoding': None, 'pieces': [n], 'chunk_size': cs, 'mode': 'pieces'})
 
 
+EXTRA_DIALECTS = [(';', 'quoted', '#'), (' ', 'whitespace', None), (' ', 'quoted', '#'), ('', 'monocolumn', '#'), ('::', 'quoted_rfc', '##'), ('::', 'simple', None), ('\t', 'simple', '#a')]
+
+
+def run_text_dialect(ns, res, text, dlm, policy, comment, header, parts_by_len):
+    """Same differential as run_text for one (delimiter, policy, comment prefix); the whole read is compared with the reference too."""
+    n = len(text)
+    whole = observe(ns, PieceText([text]), None, dlm, policy, header, comment, n + 1)
+    res.evaluations += 1
+    ref = refcsv.read_text(text, dlm, policy, None, header, comment) if dlm else refcsv.read_text(text, ',', policy, None, header, comment)
+    case = {'text': text, 'policy': policy, 'comment': comment, 'header': header, 'encoding': None, 'dlm': dlm, 'mode': 'dialect'}
+    recs, hdr, warns, err = whole
+    res.count('dialect_reference_comparisons')
+    if ref.io_error:
+        if err != 'io':
+            res.violation('ref-rfc-malformed-not-io', 'whole read of %r (%r %s %r): reference says IO error, got %r / %r' % (text, dlm, policy, comment, recs, err), case)
+    elif err is not None or recs != ref.records or hdr != ref.header or util.warning_kinds(warns) != ref.warning_kinds():
+        res.violation('ref-records-dialect', 'whole read of %r (%r %s comment %r header %s) -> %r %r %r %r, reference %r %r %r' % (text, dlm, policy, comment, header, recs, hdr, warns, err, ref.records, ref.header, ref.warning_kinds()), case)
+    for lens in parts_by_len[n]:
+        if len(lens) == 1:
+            continue
+        got = observe(ns, PieceText(cut(text, lens)), None, dlm, policy, header, comment, n + 1)
+        res.evaluations += 1
+        res.count('dialect_partition_runs')
+        if got != whole:
+            res.violation('chunk-dependence-dialect', 'text %r (%r %s comment %r) delivered as %r -> %r, whole -> %r' % (text, dlm, policy, comment, cut(text, lens), got, whole), dict(case, pieces=lens))
+
+
 def byte_samples():
     s = []
     s.append(('utf-8', 'é,"€\n😀",z\r\nq'))                       # 2-, 3-, 4-byte characters inside a multi-line quoted field + CRLF
@@ -255,6 +282,7 @@ def plan(tier, seed):
     specs = [{'kind': 'exhaustive', 'k': k, 'i': i} for i in range(k)]
     specs += [{'kind': 'bytes', 'sample': i, 'policies': [p]} for i in range(len(byte_samples())) for p in POLICIES]
     specs += [{'kind': 'long', 'i': i, 'n': 300 if tier == 'quick' else 3000} for i in range(4)]
+    specs += [{'kind': 'dialects', 'k': 8, 'i': i} for i in range(8)]
     return specs
 
 
@@ -275,6 +303,21 @@ def run_shard(spec, res):
             res.count('exhaustive_texts')
             if idx % 50021 == 0:
                 res.sample({'mode': 'pieces', 'text': text, 'partitions': 2 ** max(0, len(text) - 1), 'configs': len(configs)})
+    elif spec['kind'] == 'dialects':
+        maxlen = 5 if tier == 'quick' else 6
+        parts_by_len = {n: list(enum.compositions(n)) for n in range(0, maxlen + 1)}
+        for dlm, policy, comment in EXTRA_DIALECTS:
+            alpha = ['a', '"', '\n', '\r', ' '] + [c for c in dict.fromkeys(dlm) if c not in ' '] + ([comment[0]] if comment else [])
+            idx = 0
+            for tup in enum.words(alpha, maxlen):
+                idx += 1
+                if idx % spec['k'] != spec['i']:
+                    continue
+                text = ''.join(tup)
+                run_text_dialect(ns, res, text, dlm, policy, comment, idx % 5 == 0, parts_by_len)
+                if '\n' in text or '\r' in text or '"' in text:
+                    res.distinct_disjoint += 1
+        res.sample({'mode': 'dialects', 'dialects': EXTRA_DIALECTS, 'max_len': maxlen})
     elif spec['kind'] == 'bytes':
         run_bytes(ns, res, tier, spec['sample'], spec['policies'])
     elif spec['kind'] == 'long':
@@ -283,9 +326,9 @@ def run_shard(spec, res):
 
 def summarize(tier, seed, m):
     return {
-        'rule': 'every text of length <= %d over {a, quote, comma, LF, CR, #, space} x all 2^(n-1) partitions into successive reads (chunk_size n+1) x policies {simple, quoted, quoted_rfc} x comment prefix {none, #} x header {off, on}; length %d with header off; for each text also chunk_size 1..n on the undivided text; every byte partition of %d multi-byte UTF-8 / latin-1 / BOM samples through a RawIOBase; random longer texts with random partitions and chunk sizes (text and byte level). Each whole read is also compared with the reference reader. distinct_nontrivial = (text, configuration) pairs whose text contains a line break or a quote.' % (FULL_LEN[tier], EXTRA_LEN[tier], len(byte_samples())),
+        'rule': 'every text of length <= %d over {a, quote, comma, LF, CR, #, space} x all 2^(n-1) partitions into successive reads (chunk_size n+1) x policies {simple, quoted, quoted_rfc} x comment prefix {none, #} x header {off, on}; length %d with header off; for each text also chunk_size 1..n on the undivided text; every byte partition of %d multi-byte UTF-8 / latin-1 / BOM samples through a RawIOBase; random longer texts with random partitions and chunk sizes (text and byte level); the same exhaustive differential up to 5 / 6 characters for 7 further dialects (semicolon, space + whitespace policy, space + quoted, monocolumn, multi-character delimiter with quoted_rfc and simple, tab) with single- and multi-character comment prefixes. Each whole read is also compared with the reference reader. distinct_nontrivial = (text, configuration) pairs whose text contains a line break or a quote.' % (FULL_LEN[tier], EXTRA_LEN[tier], len(byte_samples())),
         'exhaustive': True,
-        'required': ['partition_runs', 'byte_partition_runs', 'reference_comparisons', 'chunk_size_runs'],
+        'required': ['partition_runs', 'byte_partition_runs', 'reference_comparisons', 'chunk_size_runs', 'dialect_partition_runs', 'dialect_reference_comparisons'],
         'assumptions': ['all delivery sequences a stream can produce are covered by enumerating partitions under a large chunk_size (a read(k) request returns min(piece, k)) plus the chunk-size sweep',
                         'rv.model.refcsv.read_text states the line-ending / comment / multi-line / BOM rules'],
     }
